@@ -469,6 +469,9 @@ func shortCallee(s string) string {
 type modTarget struct {
 	key string
 	idx string // "" = whole array
+	// freshOnly: only cells allocated during the call are written (the
+	// callee builds new objects of this kind); pre-existing cells keep their value
+	freshOnly bool
 }
 
 // modTargets evaluates a contract's modifies items in env.
@@ -492,25 +495,26 @@ func (e *Enc) modTargets(env *SpecEnv, con *Contract) (targets []modTarget, all 
 			if _, ok := e.q.keySort("DQL"); !ok {
 				e.q.declareHeap("DQL", "(Array Int Int)")
 			}
-			targets = append(targets, modTarget{"DQL", ""})
+			targets = append(targets, modTarget{key: "DQL"})
 			for k := range globalHeapSort {
 				if strings.HasPrefix(k, "DQE:") {
 					e.q.keySort(k)
-					targets = append(targets, modTarget{k, ""})
+					targets = append(targets, modTarget{key: k})
 				}
 			}
-		case strings.HasPrefix(item, "all "):
-			rest := strings.TrimSpace(item[4:])
+		case strings.HasPrefix(item, "all "), strings.HasPrefix(item, "fresh "):
+			fo := strings.HasPrefix(item, "fresh ")
+			rest := strings.TrimSpace(item[strings.Index(item, " "):])
 			if strings.HasPrefix(rest, "map[") {
 				t := env.resolveType(rest)
 				d, v, l := e.mapKeys(t)
-				targets = append(targets, modTarget{d, ""}, modTarget{v, ""}, modTarget{l, ""})
+				targets = append(targets, modTarget{d, "", fo}, modTarget{v, "", fo}, modTarget{l, "", fo})
 			} else if strings.HasPrefix(rest, "[]") {
 				t := env.resolveType(rest[2:])
-				targets = append(targets, modTarget{e.elemKey(t), ""})
+				targets = append(targets, modTarget{e.elemKey(t), "", fo})
 			} else if strings.HasPrefix(rest, "*") {
 				t := env.resolveType(rest[1:])
-				targets = append(targets, modTarget{e.cellKey(t), ""})
+				targets = append(targets, modTarget{e.cellKey(t), "", fo})
 			} else {
 				i := strings.LastIndex(rest, ".")
 				if i < 0 {
@@ -527,7 +531,7 @@ func (e *Enc) modTargets(env *SpecEnv, con *Contract) (targets []modTarget, all 
 						if _, isStruct := s.Field(k).Type().Underlying().(*types.Struct); isStruct {
 							continue
 						}
-						targets = append(targets, modTarget{e.fieldKey(t, k), ""})
+						targets = append(targets, modTarget{e.fieldKey(t, k), "", fo})
 						found = true
 					}
 				}
@@ -551,7 +555,7 @@ func (e *Enc) modTargetsOf(env *SpecEnv, x *Expr) []modTarget {
 	case x.Op == "call" && x.Name == "map" && len(x.Args) == 1:
 		m := env.eval(x.Args[0])
 		d, v, l := e.mapKeys(m.typ)
-		return []modTarget{{d, m.term}, {v, m.term}, {l, m.term}}
+		return []modTarget{{key: d, idx: m.term}, {key: v, idx: m.term}, {key: l, idx: m.term}}
 	case x.Op == "call" && x.Name == "deque" && len(x.Args) == 1:
 		pv := env.eval(x.Args[0])
 		// make sure the keys exist
@@ -560,11 +564,11 @@ func (e *Enc) modTargetsOf(env *SpecEnv, x *Expr) []modTarget {
 		if n, ok := types.Unalias(pv.typ.Underlying().(*types.Pointer).Elem()).(*types.Named); ok && n.TypeArgs().Len() == 1 {
 			et = n.TypeArgs().At(0)
 		}
-		return []modTarget{{"DQL", pv.term}, {"DQE:" + shortTypeName(et), pv.term}}
+		return []modTarget{{key: "DQL", idx: pv.term}, {key: "DQE:" + shortTypeName(et), idx: pv.term}}
 	case x.Op == "call" && x.Name == "elems" && len(x.Args) == 1:
 		s := env.eval(x.Args[0])
 		et := s.typ.Underlying().(*types.Slice).Elem()
-		return []modTarget{{e.elemKey(et), "(s_arr " + s.term + ")"}}
+		return []modTarget{{key: e.elemKey(et), idx: "(s_arr " + s.term + ")"}}
 	case x.Op == "unary" && x.Name == "*":
 		p := env.eval(x.Args[0])
 		return e.ptrTargets(env, p)
@@ -587,7 +591,7 @@ func (e *Enc) modTargetsOf(env *SpecEnv, x *Expr) []modTarget {
 		if _, isStruct := ft.Underlying().(*types.Struct); isStruct {
 			return e.ptrTargets(env, Value{term: e.fieldRef(env.cur, pt.Elem(), last, cur.term), typ: types.NewPointer(ft)})
 		}
-		return []modTarget{{e.fieldKey(pt.Elem(), last), cur.term}}
+		return []modTarget{{key: e.fieldKey(pt.Elem(), last), idx: cur.term}}
 	}
 	env.errorf("unsupported modifies item %s", x)
 	return nil
@@ -606,12 +610,12 @@ func (e *Enc) ptrTargets(env *SpecEnv, p Value) []modTarget {
 			if _, nested := ft.Underlying().(*types.Struct); nested {
 				out = append(out, e.ptrTargets(env, Value{term: e.fieldRef(env.cur, et, i, p.term), typ: types.NewPointer(ft)})...)
 			} else {
-				out = append(out, modTarget{e.fieldKey(et, i), p.term})
+				out = append(out, modTarget{key: e.fieldKey(et, i), idx: p.term})
 			}
 		}
 		return out
 	}
-	return []modTarget{{e.cellKey(et), p.term}}
+	return []modTarget{{key: e.cellKey(et), idx: p.term}}
 }
 
 func (e *Enc) havocModifies(env *SpecEnv, st *State, con *Contract) {
@@ -621,17 +625,40 @@ func (e *Enc) havocModifies(env *SpecEnv, st *State, con *Contract) {
 		ghosts = []string{ghostSendCount, ghostClosed}
 	}
 	whole := map[string]bool{}
+	freshOnly := map[string]bool{}
 	for _, t := range targets {
 		if t.idx == "" {
 			whole[t.key] = true
+			if t.freshOnly {
+				freshOnly[t.key] = true
+			}
+		}
+	}
+	for _, t := range targets {
+		if t.idx == "" && !t.freshOnly {
+			delete(freshOnly, t.key)
 		}
 	}
 	done := map[string]bool{}
 	for _, t := range targets {
 		if whole[t.key] {
 			if !done[t.key] {
+				pre := st.get(t.key)
 				st.havocKey(t.key, nil)
 				done[t.key] = true
+				if freshOnly[t.key] && strings.HasPrefix(e.q.sortOfKey(t.key), "(Array Int ") {
+					// cells that existed before the call keep their value; individually
+					// listed cells of the same array are handled below
+					r := e.q.freshBound("r")
+					e.v.declFun("broot", "(Int) Int")
+					guard := []string{"(< " + rootOf(r) + " " + st.ap + ")"}
+					for _, t2 := range targets {
+						if t2.key == t.key && t2.idx != "" {
+							guard = append(guard, "(not (= "+r+" "+t2.idx+"))")
+						}
+					}
+					st.assume(fmt.Sprintf("(forall ((%[1]s Int)) (! (=> %[2]s (= (select %[3]s %[1]s) (select %[4]s %[1]s))) :pattern ((select %[3]s %[1]s))))", r, and(guard...), st.get(t.key), pre))
+				}
 			}
 			continue
 		}
